@@ -1,5 +1,5 @@
 """C01 — Stored objects read back byte-identical with their metadata (DESIGN.md §7 C01)."""
-import hashlib, json, urllib.parse
+import base64, hashlib, json, urllib.parse
 from vlib import common, coq, gobuild, gw, s3c, e2e, chunkenc
 from vlib.common import coq_str, coq_list, coq_bool
 
@@ -119,11 +119,52 @@ def spec_readback(chk, gwbin, label, cfg, n_ops):
         cls = [s3c.Client(g.port, "root", "rootsecret") for g in gws]
         chk.require(cls[0].req("PUT", "/bk1").status == 200, "c01:setup", "CreateBucket failed in configuration %s" % label)
         state = {}           # key -> expectation of the last acknowledged upload
+        def readback(c2, key, exp, variant, body, md, tg, ch, note=""):
+            path = "/bk1/" + key
+            g_ = c2.req("GET", path); h_ = c2.req("HEAD", path)
+            t_ = c2.req("GET", path, query={"tagging": ""}); a_ = c2.req("GET", path, query={"attributes": ""}, headers={"x-amz-object-attributes": "ETag,ObjectSize"})
+            l_ = c2.req("GET", "/bk1", query={"list-type": "2", "prefix": key})
+            problems = []
+            if g_.status != 200: problems.append("GET %d %s" % (g_.status, g_.code))
+            else:
+                if g_.body != exp["body"]: problems.append("body differs (%d bytes read, %d uploaded)" % (len(g_.body), len(exp["body"])))
+                if e2e.etag_clean(g_.headers.get("etag")) != exp["etag"]: problems.append("ETag %s, expected %s" % (g_.headers.get("etag"), exp["etag"]))
+                if g_.headers.get("content-length") != str(len(exp["body"])): problems.append("Content-Length %s" % g_.headers.get("content-length"))
+                for ck, cv in exp["content"].items():
+                    if g_.headers.get(ck) != cv: problems.append("%s read back as %r, supplied %r" % (ck, g_.headers.get(ck), cv))
+                gm = {k.lower(): v for k, v in e2e.meta_of(g_.headers).items()}
+                if gm != {k.lower(): v for k, v in exp["meta"].items()}: problems.append("user metadata read back as %r, supplied %r" % (gm, exp["meta"]))
+                tc = g_.headers.get("x-amz-tagging-count")
+                if (int(tc) if tc else 0) != len(exp["tags"]): problems.append("x-amz-tagging-count %r for %d tags" % (tc, len(exp["tags"])))
+            if h_.status != 200 or e2e.etag_clean(h_.headers.get("etag")) != exp["etag"] or h_.headers.get("content-length") != str(len(exp["body"])):
+                problems.append("HEAD %d etag %s length %s" % (h_.status, h_.headers.get("etag"), h_.headers.get("content-length")))
+            if t_.status == 200 and t_.xml() is not None:
+                tags = {t.findtext("Key"): t.findtext("Value") for t in t_.xml().iter("Tag")}
+                if tags != exp["tags"]: problems.append("tags read back as %r, supplied %r" % (tags, exp["tags"]))
+            elif exp["tags"]:
+                problems.append("GetObjectTagging %d" % t_.status)
+            if a_.status == 200 and a_.xml() is not None:
+                if e2e.etag_clean(a_.xml().findtext("ETag")) != exp["etag"] or a_.xml().findtext("ObjectSize") != str(len(exp["body"])):
+                    problems.append("GetObjectAttributes ETag %s size %s" % (a_.xml().findtext("ETag"), a_.xml().findtext("ObjectSize")))
+            if l_.status == 200 and l_.xml() is not None:
+                ent = [c for c in l_.xml().findall("Contents") if c.findtext("Key") == key]
+                if not ent or e2e.etag_clean(ent[0].findtext("ETag")) != exp["etag"] or ent[0].findtext("Size") != str(len(exp["body"])):
+                    problems.append("listing entry %s" % ([(c.findtext("Key"), c.findtext("ETag"), c.findtext("Size")) for c in ent] or "missing"))
+            chk.case(("spec", label, key, variant, len(body), tuple(sorted(md)), tuple(sorted(tg)), tuple(sorted(ch))), True)
+            chk.traces += 1
+            if problems:
+                kinds = sorted(set(p.split(" ")[0] for p in problems))
+                prev = exp["how"]
+                chk.fail("c01:readback%s:%s:%s" % ("-after-refused-" + variant if note else "", label.split("+")[0], "+".join(kinds)[:50]),
+                         "after an acknowledged %s upload of key %r (%d bytes)%s in configuration %s, reading it back through another gateway process shows: %s" % (
+                             exp["how"], key, len(exp["body"]), note, label, "; ".join(problems)[:600]),
+                         {"config": label, "variant": variant, "note": note, "key": key, "size": len(body), "supplied_content": ch, "supplied_meta": md, "supplied_tags": tg, "problems": problems})
+
         for i in range(n_ops):
             w, rd = rnd.randrange(2), rnd.randrange(2)      # which gateway process writes / reads
             if rnd.random() < 0.05:
                 gws[rd].restart(); cls[rd] = s3c.Client(gws[rd].port, "root", "rootsecret")
-            key = rnd.choice(KEYS) if rnd.random() < 0.8 else rnd.choice(list(state) or KEYS)
+            key = rnd.choice(KEYS) if rnd.random() < 0.5 else rnd.choice(list(state) or KEYS)
             body = blob(rnd.choice(LENS), i)
             ch, md, tg = rnd.choice(content_sets), rnd.choice(meta_sets), rnd.choice(tag_sets)
             hd = dict(ch); hd.update({"x-amz-meta-" + k: v for k, v in md.items()})
@@ -205,46 +246,37 @@ def spec_readback(chk, gwbin, label, cfg, n_ops):
                 continue
             state[key] = {"body": body, "etag": etag, "content": ch, "meta": md, "tags": tg, "how": variant}
             # read back through the other process
-            exp = state[key]
-            c2 = cls[rd]
-            g_ = c2.req("GET", path); h_ = c2.req("HEAD", path)
-            t_ = c2.req("GET", path, query={"tagging": ""}); a_ = c2.req("GET", path, query={"attributes": ""}, headers={"x-amz-object-attributes": "ETag,ObjectSize"})
-            l_ = c2.req("GET", "/bk1", query={"list-type": "2", "prefix": key})
-            problems = []
-            if g_.status != 200: problems.append("GET %d %s" % (g_.status, g_.code))
-            else:
-                if g_.body != exp["body"]: problems.append("body differs (%d bytes read, %d uploaded)" % (len(g_.body), len(exp["body"])))
-                if e2e.etag_clean(g_.headers.get("etag")) != exp["etag"]: problems.append("ETag %s, expected %s" % (g_.headers.get("etag"), exp["etag"]))
-                if g_.headers.get("content-length") != str(len(exp["body"])): problems.append("Content-Length %s" % g_.headers.get("content-length"))
-                for ck, cv in exp["content"].items():
-                    if g_.headers.get(ck) != cv: problems.append("%s read back as %r, supplied %r" % (ck, g_.headers.get(ck), cv))
-                gm = {k.lower(): v for k, v in e2e.meta_of(g_.headers).items()}
-                if gm != {k.lower(): v for k, v in exp["meta"].items()}: problems.append("user metadata read back as %r, supplied %r" % (gm, exp["meta"]))
-                tc = g_.headers.get("x-amz-tagging-count")
-                if (int(tc) if tc else 0) != len(exp["tags"]): problems.append("x-amz-tagging-count %r for %d tags" % (tc, len(exp["tags"])))
-            if h_.status != 200 or e2e.etag_clean(h_.headers.get("etag")) != exp["etag"] or h_.headers.get("content-length") != str(len(exp["body"])):
-                problems.append("HEAD %d etag %s length %s" % (h_.status, h_.headers.get("etag"), h_.headers.get("content-length")))
-            if t_.status == 200 and t_.xml() is not None:
-                tags = {t.findtext("Key"): t.findtext("Value") for t in t_.xml().iter("Tag")}
-                if tags != exp["tags"]: problems.append("tags read back as %r, supplied %r" % (tags, exp["tags"]))
-            elif exp["tags"]:
-                problems.append("GetObjectTagging %d" % t_.status)
-            if a_.status == 200 and a_.xml() is not None:
-                if e2e.etag_clean(a_.xml().findtext("ETag")) != exp["etag"] or a_.xml().findtext("ObjectSize") != str(len(exp["body"])):
-                    problems.append("GetObjectAttributes ETag %s size %s" % (a_.xml().findtext("ETag"), a_.xml().findtext("ObjectSize")))
-            if l_.status == 200 and l_.xml() is not None:
-                ent = [c for c in l_.xml().findall("Contents") if c.findtext("Key") == key]
-                if not ent or e2e.etag_clean(ent[0].findtext("ETag")) != exp["etag"] or ent[0].findtext("Size") != str(len(exp["body"])):
-                    problems.append("listing entry %s" % ([(c.findtext("Key"), c.findtext("ETag"), c.findtext("Size")) for c in ent] or "missing"))
-            chk.case(("spec", label, key, variant, len(body), tuple(sorted(md)), tuple(sorted(tg)), tuple(sorted(ch))), True)
-            chk.traces += 1
-            if problems:
-                kinds = sorted(set(p.split(" ")[0] for p in problems))
-                prev = exp["how"]
-                chk.fail("c01:readback:%s:%s" % (label.split("+")[0], "+".join(kinds)[:50]),
-                         "after an acknowledged %s upload of key %r (%d bytes) in configuration %s, reading it back through another gateway process shows: %s" % (
-                             variant, key, len(body), label, "; ".join(problems)[:600]),
-                         {"config": label, "variant": variant, "key": key, "size": len(body), "supplied_content": ch, "supplied_meta": md, "supplied_tags": tg, "problems": problems})
+            readback(cls[rd], key, state[key], variant, body, md, tg, ch)
+            # a refused upload onto an existing key (other content and metadata) must leave what is stored as it was
+            if rnd.random() < 0.4:
+                k2 = rnd.choice(list(state))
+                other = blob(rnd.choice([1, 100, 4097]), 5000 + i)
+                h3 = {"content-type": "refused/type", "x-amz-meta-refused": "yes", "x-amz-tagging": "refused=1"}
+                how = rnd.choice(["bad-md5", "bad-sha256", "bad-crc32", "legal-hold-without-lock", "copy-missing-source", "complete-wrong-etag"])
+                p2 = "/bk1/" + k2
+                if how == "bad-md5":
+                    h3["content-md5"] = base64.b64encode(hashlib.md5(other + b"x").digest()).decode(); rr = cls[w].req("PUT", p2, body=other, headers=h3)
+                elif how == "bad-sha256":
+                    rr = cls[w].req("PUT", p2, body=other, headers=h3, payload_hash=hashlib.sha256(other + b"x").hexdigest())
+                elif how == "bad-crc32":
+                    h3["x-amz-checksum-crc32"] = "AAAAAA=="; rr = cls[w].req("PUT", p2, body=other, headers=h3)
+                elif how == "legal-hold-without-lock":
+                    h3["x-amz-object-lock-legal-hold"] = "ON"; rr = cls[w].req("PUT", p2, body=other, headers=h3)
+                elif how == "copy-missing-source":
+                    h3.update({"x-amz-copy-source": "bk1/no-such-source-key", "x-amz-metadata-directive": "REPLACE"}); rr = cls[w].req("PUT", p2, headers=h3)
+                else:
+                    r0 = cls[w].req("POST", p2, query={"uploads": ""}, headers=h3)
+                    uid = r0.xml().findtext("UploadId") if r0.status == 200 else ""
+                    cls[w].req("PUT", p2, query={"partNumber": "1", "uploadId": uid}, body=other)
+                    rr = cls[w].req("POST", p2, query={"uploadId": uid},
+                                    body=b"<CompleteMultipartUpload><Part><PartNumber>1</PartNumber><ETag>\"00000000000000000000000000000000\"</ETag></Part></CompleteMultipartUpload>")
+                    cls[w].req("DELETE", p2, query={"uploadId": uid})
+                chk.count("%s:refused:%s:%d" % (label, how, rr.status))
+                if 400 <= rr.status < 500:
+                    e2 = state[k2]
+                    readback(cls[rd], k2, e2, how, e2["body"], e2["meta"], e2["tags"], e2["content"], note=", followed by a %s upload refused with %d %s" % (how, rr.status, rr.code))
+                elif rr.status == 200:
+                    state.pop(k2, None)       # not refused after all (nothing claimed about it here)
         chk.tie("gateways still running (%s)" % label, all(g.alive() for g in gws), gws[0].log_tail())
 
 
